@@ -114,6 +114,10 @@ pub fn model_pair(a: &Cfg, b: &Cfg) -> Model {
     if b.mult != a.mult {
         m.spaces[1].multiplier = [1.0, 2.5][b.mult];
     }
+    // a second window of X stored after Y's window: the windows of one wall are not contiguous in the list
+    if a.win > 0 && b.win > 0 {
+        m.windows.push(window("X_v2", uid("winc"), uid("X"), Some([2.8, 0.3]), 0.9, 1.1, 0.0));
+    }
     m
 }
 
